@@ -504,4 +504,45 @@ def calcCell {V} (G : Graph V) (M entry : Nat) : Nat → Ctx V → Nat → Optio
 def calcEntry {V} (G : Graph V) (M : Nat) (fuel : Nat) (entry : Nat) : Option (V × Ctx V) :=
   calcCell G M entry fuel Ctx.init entry
 
+/-! ## Part 3 — the state the evaluator touches outside its context:
+`File.formulaChecked` and the lazily written `xlsxC.f` (cell.go: getCellFormula,
+setArrayFormulaCells) -/
+
+/-- class of a `CalcCellValue` answer -/
+inductive Ans
+  | value
+  | error
+  deriving DecidableEq, Repr
+
+/-- `File.formulaChecked` -/
+structure LazySt where
+  checked : Bool
+  deriving DecidableEq, Repr
+
+/-- One evaluation on a workbook whose content makes `setArrayFormulaCells` fail
+(`expandFails`) or not — a function of the content: it re-reads the same parts and
+writes `c.f` only where it is empty, so a retry fails at the same place — and whose cell
+evaluates to class `cellAns` once the expansion is in place.  Transcription of the
+prologue of `getCellFormula(…, transformed = true)`; the position of
+`f.formulaChecked = true` relative to the call is the regenerated fact. -/
+def evalLazy (expandFails : Bool) (cellAns : Ans) (st : LazySt) : Ans × LazySt :=
+  if !st.checked then
+    if Facts.C09.flagSetBeforeExpansion then
+      if expandFails then (.error, ⟨true⟩) else (cellAns, ⟨true⟩)
+    else
+      if expandFails then (.error, st) else (cellAns, ⟨true⟩)
+  else (cellAns, st)
+
+/-- the state of a `*File` after `k` evaluations since it was opened -/
+def stateAfter (expandFails : Bool) (cellAns : Ans) : Nat → LazySt
+  | 0 => ⟨false⟩
+  | k + 1 => (evalLazy expandFails cellAns (stateAfter expandFails cellAns k)).2
+
+/-- the answers (and flag values) of `n` consecutive evaluations on the same `*File` -/
+def runLazy (expandFails : Bool) (cellAns : Ans) : Nat → LazySt → List (Ans × Bool)
+  | 0, _ => []
+  | n + 1, st =>
+    let r := evalLazy expandFails cellAns st
+    (r.1, r.2.checked) :: runLazy expandFails cellAns n r.2
+
 end XlModel.CalcTotal
